@@ -700,9 +700,13 @@ func familyCases(full bool) []fw.Case {
 	all = append(all, divergeFamily(full)...)
 	all = append(all, ctrlFamily()...)
 	all = append(all, jsonFamily(full)...)
+	all = append(all, optFieldFamily(full)...)
 	out := make([]fw.Case, 0, len(all))
 	for i, c := range all {
 		out = append(out, fw.MkCase(fmt.Sprintf("c02-f-%d", i), c.kind, Payload{Src: c.src, Shape: c.shape, Want: c.want}))
+	}
+	for i, c := range modulesFamily(full) {
+		out = append(out, fw.MkCase(fmt.Sprintf("c02-fm-%d", i), c.kind, Payload{Src: c.src, Mods: c.mods, Shape: c.shape, Want: c.want}))
 	}
 	return out
 }
